@@ -589,7 +589,7 @@ def install_sub(api, sub, rec, context0, box):
 
     def handler(context, event):
         cnt['n'] += 1
-        if cnt['n'] % sub.get('every', 1):
+        if cnt['n'] % sub.get('every', 1) or (sub.get('max') is not None and cnt['n'] > sub['max'] * sub.get('every', 1)):
             return
         env = rec.env
         bd = getattr(event, 'bar_dict', None)
